@@ -117,6 +117,9 @@ class World:
 
     # --- python `random` module ----------------------------------------
     def seed(self, s=None):
+        # documented contract of random.seed (Python >= 3.11)
+        if s is not None and not isinstance(s, (int, float, str, bytes, bytearray)):
+            raise TypeError("The only supported seed types are: None, int, float, str, bytes, and bytearray.")
         self.py_epoch = s
         self.py_count = 0
 
